@@ -182,13 +182,15 @@ func buildDescV2(t *tape.Tape, big bool) ([]byte, string) {
 // buildMLUC renders a multiLocalizedUnicodeType.
 func buildMLUC(t *tape.Tape, big bool) ([]byte, []MLUCRecord, []string, string) {
 	nrec := 1
-	switch t.Pick(3, 4, 2, 1) {
+	switch t.Pick(12, 16, 8, 4, 1) {
 	case 1:
 		nrec = 2 + t.Intn(5)
 	case 2:
 		nrec = 7 + t.Intn(20)
 	case 3:
 		nrec = 40
+	case 4:
+		nrec = 250 + t.Intn(60) // beyond any 8-bit counter
 	}
 	r := t.Sub()
 	nEn := 0
@@ -374,7 +376,7 @@ func DrawICC(t *tape.Tape, o ICCOpts) *ICCProfile {
 		dk = 1 + t.Pick(4, 5, 1)
 	}
 	nOther := 0
-	switch t.Pick(3, 4, 2, 1) {
+	switch t.Pick(12, 16, 8, 4, 1) {
 	case 0:
 		nOther = 0
 	case 1:
@@ -383,12 +385,17 @@ func DrawICC(t *tape.Tape, o ICCOpts) *ICCProfile {
 		nOther = 10 + t.Intn(20)
 	case 3:
 		nOther = maxTags - 1
+	case 4:
+		nOther = maxTags - 1
+		if o.MaxTags <= 0 {
+			// a tag table beyond any 8-bit counter (private signatures fill up
+			// the pool of registered ones)
+			nOther = 250 + t.Intn(60)
+			maxTags = nOther + 2
+		}
 	}
 	if nOther > maxTags-1 {
 		nOther = maxTags - 1
-	}
-	if nOther > len(iccTagPool) {
-		nOther = len(iccTagPool)
 	}
 	r := t.Sub()
 	type tagT struct {
@@ -411,7 +418,14 @@ func DrawICC(t *tape.Tape, o ICCOpts) *ICCProfile {
 		perm[i], perm[j] = perm[j], perm[i]
 	}
 	for i := 0; i < nOther; i++ {
-		sig := sig4(iccTagPool[perm[i]])
+		var sig uint32
+		if i < len(perm) {
+			sig = sig4(iccTagPool[perm[i]])
+		} else {
+			k := i - len(perm)
+			const b36 = "0123456789abcdefghijklmnopqrstuvwxyz"
+			sig = sig4(string([]byte{'Z', b36[k/1296%36], b36[k/36%36], b36[k%36]}))
+		}
 		if len(blocks) > 0 && r.Intn(4) == 0 {
 			tags = append(tags, tagT{sig, r.Intn(len(blocks))})
 			p.Shared++
